@@ -177,7 +177,14 @@ class FaultFS:
         def f(path, *a, **kw):
             cp = self.canon(path, kw.get("dir_fd"))
             if cp is not None:
+                k = self.n
                 self.gate((kind, cp))
+                if kind == "mkdir":
+                    try:
+                        return real(path, *a, **kw)
+                    except FileExistsError:
+                        self._emit("N", (k,))   # a mkdir that found the directory in place: no effect
+                        raise
             return real(path, *a, **kw)
         return f
 
@@ -318,7 +325,7 @@ def run_forked(fn, roots, plan=None, exc_name=default_exc_name):
     os.close(r)
     _, st = os.waitpid(pid, 0)
     code = os.waitstatus_to_exitcode(st)
-    res = {"status": None, "exc": None, "steps": [], "reads": [], "faulted": [], "detail": ""}
+    res = {"status": None, "exc": None, "steps": [], "reads": [], "faulted": [], "detail": "", "noeffect": []}
     done = False
     for line in b"".join(chunks).decode().split("\n"):
         if not line:
@@ -330,6 +337,8 @@ def run_forked(fn, roots, plan=None, exc_name=default_exc_name):
             res["reads"].append(tuple(rec[1:]))
         elif rec[0] == "F":
             res["faulted"].append(rec[1])
+        elif rec[0] == "N":
+            res["noeffect"].append(rec[1])
         elif rec[0] == "E":
             done = True
             res["exc"], res["detail"] = rec[1], rec[2]
